@@ -727,6 +727,8 @@ async fn global_inner(
 
     let closure = db.compiled_module(name.clone(), None).await?;
 
+    #[cfg(feature = "verif_hooks")]
+    crate::vm::verif::sched_point("global_inner_before_eval");
     let module_id = closure.function.name.clone();
 
     let vm = db.thread();
